@@ -25,6 +25,8 @@ type c08Case struct {
 	ErrKind string `json:"err_kind"`
 	MaxBody int   `json:"max_body"`
 	Mut    int    `json:"mutations"`
+	Resps  []c08Resp `json:"responses,omitempty"`
+	Vals   []string  `json:"values,omitempty"`
 }
 
 type c08Plan struct {
@@ -35,28 +37,108 @@ func init() { scenarios["C08"] = scenC08 }
 
 const c08Sentinel = "SENTINEL-TAIL-0123456789"
 
-func genResponse(e *Env) []byte {
-	var b bytes.Buffer
+// c08Resp describes one generated response inside an input.
+type c08Resp struct {
+	Status string `json:"status"`
+	End    int    `json:"end"`   // offset just after this response
+	Clean  bool   `json:"clean"` // well-formed framing: End is the RFC 9112 end of the message
+}
+
+func genOneResponse(e *Env, b *bytes.Buffer, status string) bool {
 	nl := Pick(e, "\r\n", "\r\n", "\r\n", "\n")
-	fmt.Fprintf(&b, "HTTP/1.1 %d %s%s", Pick(e, 200, 204, 304, 404, 100, 999), Pick(e, "OK", "", "Some Text"), nl)
-	body := bodyPat("c08", Pick(e, 0, 1, 10, 300, 5000))
+	fmt.Fprintf(b, "HTTP/1.1 %s %s%s", status, Pick(e, "OK", "", "Some Text"), nl)
+	body := bodyPat("c08"+status, Pick(e, 0, 1, 10, 300, 5000))
 	if e.Chance(30) {
-		fmt.Fprintf(&b, "X-Pad: %s%s", strings.Repeat("p", Pick(e, 1, 100, 3000)), nl)
+		fmt.Fprintf(b, "X-Pad: %s%s", strings.Repeat("p", Pick(e, 1, 100, 3000)), nl)
 	}
+	bodiless := status == "204" || status == "304" || (status[0] == '1' && status != "101")
+	clean := true
 	switch Pick(e, "cl", "cl", "chunked", "none", "trailer") {
 	case "cl":
-		fmt.Fprintf(&b, "Content-Length: %d%s%s", len(body), nl, nl)
+		if bodiless {
+			body = nil
+		}
+		fmt.Fprintf(b, "Content-Length: %d%s%s", len(body), nl, nl)
 		b.Write(body)
 	case "chunked":
-		fmt.Fprintf(&b, "Transfer-Encoding: chunked%s%s", nl, nl)
-		b.Write(chunkedEncode(e, body, Pick(e, "plain", "ext", "upper", "trailer", "huge", "no-crlf-after-data")))
+		if bodiless {
+			fmt.Fprintf(b, "Content-Length: 0%s%s", nl, nl)
+			break
+		}
+		fmt.Fprintf(b, "Transfer-Encoding: chunked%s%s", nl, nl)
+		v := Pick(e, "plain", "plain", "ext", "upper", "trailer", "huge", "no-crlf-after-data")
+		clean = v != "huge" && v != "no-crlf-after-data"
+		b.Write(chunkedEncode(e, body, v))
 	case "trailer":
-		fmt.Fprintf(&b, "Transfer-Encoding: chunked%sTrailer: X-T%s%s", nl, nl, nl)
+		if bodiless {
+			fmt.Fprintf(b, "Content-Length: 0%s%s", nl, nl)
+			break
+		}
+		fmt.Fprintf(b, "Transfer-Encoding: chunked%sTrailer: X-T%s%s", nl, nl, nl)
 		b.Write(chunkedEncode(e, body, "trailer"))
 	default:
-		fmt.Fprintf(&b, "Content-Length: 0%s%s", nl, nl)
+		fmt.Fprintf(b, "Content-Length: 0%s%s", nl, nl)
 	}
-	return b.Bytes()
+	return clean
+}
+
+// genResponses writes one to three responses back to back (an interim one may
+// come first) with pairwise distinct status codes, so that the response a
+// parser returns identifies which message it took.
+func genResponses(e *Env) ([]byte, []c08Resp) {
+	var b bytes.Buffer
+	var meta []c08Resp
+	finals := []string{"200", "204", "304", "404", "999", "099", "042", "000", "101", "600"}
+	interims := []string{"100", "102", "103", "199"}
+	used := map[string]bool{}
+	pick := func(xs []string) string {
+		for {
+			s := xs[e.Int(len(xs))]
+			if !used[s] {
+				used[s] = true
+				return s
+			}
+		}
+	}
+	n := Pick(e, 1, 1, 2, 2, 3)
+	for i := 0; i < n; i++ {
+		st := pick(finals)
+		if i < n-1 && e.Chance(40) {
+			st = pick(interims)
+		}
+		clean := genOneResponse(e, &b, st)
+		meta = append(meta, c08Resp{Status: st, End: b.Len(), Clean: clean})
+	}
+	return b.Bytes(), meta
+}
+
+// genValue draws a short string from an alphabet that is adversarial for the
+// value parsers (URI, host, args, cookies, ranges, header parameters).
+func genValue(e *Env) string {
+	toks := []string{"%", "%4", "%41", "%e", "%zz", "%00", "%2f", "%2F..", "+", "=", "&", ";", ",", " ", "\"", "\\", "a", "b", "/", "..", ".", "?", "#", ":", "@", "[", "]", "-", "0", "9",
+		"18446744073709551616", "bytes=", "\x00", "\xff", "\t", "::1", "xn--", "é"}
+	n := e.Range(0, 8)
+	var sb strings.Builder
+	for i := 0; i < n; i++ {
+		sb.WriteString(toks[e.Int(len(toks))])
+	}
+	return sb.String()
+}
+
+// genValuesRequest is a well-framed request whose target, Host, Cookie, Range
+// and Content-Type parameters are adversarial value strings (no CR/LF/NUL in
+// the places where they would change the framing).
+func genValuesRequest(e *Env) (req []byte, vals []string) {
+	clean := func(s string) string {
+		return strings.NewReplacer("\r", "", "\n", "", "\x00", "%00", " ", "%20", "\t", "%09").Replace(s)
+	}
+	target, host, cookie, rng, param := "/"+clean(genValue(e)), clean(genValue(e)), strings.ReplaceAll(genValue(e), "\x00", ""), strings.ReplaceAll(genValue(e), "\x00", ""), strings.ReplaceAll(genValue(e), "\x00", "")
+	if e.Chance(30) {
+		target = "http://" + host + target
+	}
+	var b bytes.Buffer
+	fmt.Fprintf(&b, "GET %s HTTP/1.1\r\nHost: %s\r\nCookie: %s\r\nRange: bytes=%s\r\nContent-Type: multipart/form-data; boundary=%s\r\nContent-Disposition: form-data; %s\r\n\r\n", target, host, cookie, rng, param, param)
+	return b.Bytes(), []string{target, host, cookie, rng, param}
 }
 
 func scenC08(e *Env) func() {
@@ -69,10 +151,16 @@ func scenC08(e *Env) func() {
 		c := c08Case{Target: Pick(e, "request", "request", "response", "response", "reqheader", "respheader", "values"), BufSz: Pick(e, 4096, 16, 64, 512, 4096), Chunk: Pick(e, 1<<20, 1, 2, 7, 100), Zero: e.Chance(20), ErrAt: -1, ErrKind: Pick(e, "eof", "unexpected-eof", "timeout", "custom"), MaxBody: Pick(e, 1<<24, 1, 100, 4000, 1<<20)}
 		var in []byte
 		switch c.Target {
-		case "request", "reqheader", "values":
+		case "request", "reqheader":
 			_, in = genC01Msg(e, fmt.Sprint(i), false)
+		case "values":
+			if e.Chance(70) {
+				in, c.Vals = genValuesRequest(e)
+			} else {
+				_, in = genC01Msg(e, fmt.Sprint(i), false)
+			}
 		default:
-			in = genResponse(e)
+			in, c.Resps = genResponses(e)
 		}
 		c.Mut = Pick(e, 0, 0, 0, 1, 2, 5)
 		for m := 0; m < c.Mut && len(in) > 0; m++ {
@@ -170,6 +258,7 @@ func c08Run(e *Env, p *c08Plan) {
 		}
 		br := bufio.NewReaderSize(fr, c.BufSz)
 		var perr error
+		parsedStatus := 0
 		var pn any
 		stack := ""
 		parse := func() {
@@ -189,6 +278,7 @@ func c08Run(e *Env, p *c08Plan) {
 			case "response":
 				var resp fasthttp.Response
 				perr = resp.ReadLimitBody(br, c.MaxBody)
+				parsedStatus = resp.StatusCode()
 			case "reqheader":
 				var h fasthttp.RequestHeader
 				perr = h.Read(br)
@@ -204,6 +294,27 @@ func c08Run(e *Env, p *c08Plan) {
 				var ck fasthttp.Cookie
 				ck.ParseBytes(in)
 				fasthttp.ParseByteRange(in, len(in))
+				if len(c.Vals) == 5 {
+					var u2 fasthttp.URI
+					u2.Parse([]byte(c.Vals[1]), []byte(c.Vals[0]))
+					_ = u2.FullURI()
+					u2.Update(c.Vals[4])
+					a.Parse(c.Vals[2])
+					a.Parse(c.Vals[0])
+					ck.Parse(c.Vals[2])
+					var rc fasthttp.Cookie
+					rc.Parse("k=" + c.Vals[2] + "; path=" + c.Vals[4] + "; max-age=" + c.Vals[3] + "; expires=" + c.Vals[3])
+					fasthttp.ParseByteRange([]byte("bytes="+c.Vals[3]), 1000)
+					fasthttp.ParseByteRange([]byte(c.Vals[3]), 7)
+					fasthttp.VisitHeaderParams([]byte("form-data; "+c.Vals[4]), func(k, v []byte) bool { return true })
+					fasthttp.VisitHeaderParams([]byte(c.Vals[2]), func(k, v []byte) bool { return len(k) < 3 })
+					var rh fasthttp.ResponseHeader
+					rh.SetBytesKV([]byte("Set-Cookie"), []byte("k="+c.Vals[2]))
+					rh.VisitAllCookie(func(k, v []byte) {
+						var c2 fasthttp.Cookie
+						c2.ParseBytes(v)
+					})
+				}
 				var req fasthttp.Request
 				perr = c08ReadRequest(e, &req, br, c.MaxBody)
 				if perr == nil {
@@ -258,9 +369,36 @@ func c08Run(e *Env, p *c08Plan) {
 						e.Probe("exact-end")
 					}
 				}
-			} else if !bytes.HasSuffix(rest, []byte(c08Sentinel)) {
-				e.Violation("over-read/response", "%s: the bytes following the parsed response do not end with the %d-byte sentinel (remaining %q)", tag, len(c08Sentinel), clip(string(rest), 80))
-				return
+			} else {
+				if !bytes.HasSuffix(rest, []byte(c08Sentinel)) {
+					e.Violation("over-read/response", "%s: the bytes following the parsed response do not end with the %d-byte sentinel (remaining %q)", tag, len(c08Sentinel), clip(string(rest), 80))
+					return
+				}
+				// which message was returned: the first response that is not an
+				// interim one (1xx other than 101); every byte consumed must belong
+				// to the interim responses before it or to the message itself
+				k := -1
+				for i, r := range c.Resps {
+					if !(r.Status[0] == '1' && r.Status != "101") {
+						k = i
+						break
+					}
+				}
+				allClean := true
+				for i := 0; i <= k; i++ {
+					allClean = allClean && c.Resps[i].Clean
+				}
+				if k >= 0 && allClean {
+					e.Ob(1)
+					if got := fmt.Sprintf("%03d", parsedStatus); got != c.Resps[k].Status {
+						e.Violation("over-read/response-skipped", "%s: the input holds responses %+v; the parser returned status %s, so it consumed a complete final response (%s) without returning it", tag, c.Resps, got, c.Resps[k].Status)
+						return
+					}
+					if !bytes.HasSuffix(in, rest) || len(rest) < len(in)-c.Resps[k].End {
+						e.Violation("over-read/response", "%s: the returned response ends at offset %d of %d, yet only %d bytes remain unread", tag, c.Resps[k].End, len(in), len(rest))
+						return
+					}
+				}
 			}
 		}
 	}
